@@ -175,7 +175,9 @@ def _field(rng, lens):
     nk = rng.choice(["none", "none", "random", "random", "zerosum", "zero"])
     dt = rng.choice(["complex", "complex", "complex", "float", "int"])
     sc = rng.choice([1.0, 1.0, 1e-3, 30.0])
-    return F.gen_field(rng, n, npol, nk, dt, sc)
+    # one in five two-polarisation fields is x-only / y-only (dark row) while the noise, if any, fills both rows
+    dark = rng.choice([0, 1]) if (npol == 2 and rng.random() < 0.2) else None
+    return F.gen_field(rng, n, npol, nk, dt, sc, dark)
 
 
 def gen_cases(rng, tier):
@@ -568,7 +570,8 @@ def _cmp_field_reply(tag, r, rep, in_rows):
     msig, mnoise = F.dec_field(t)
     isig = F.c_rows(r["sig"])
     inoise = None if r["noise"] is None else F.c_rows(r["noise"])
-    scale = max(F.maxabs(isig, inoise, F.c_rows(in_rows[0]), None if in_rows[1] is None else F.c_rows(in_rows[1])), 1e-300)
+    # signal judged relative to the input signal, noise relative to the input noise (|h| <= 1, |rotation| = 1)
+    scale = F.scales(F.c_rows(in_rows[0]), None if in_rows[1] is None else F.c_rows(in_rows[1]))
     return F.diff_fields(tag, isig, inoise, msig, mnoise, scale)
 
 
@@ -589,8 +592,9 @@ def compare(case, res, reqs, replies):
                 m = np.array(Toks(rep[3:]).clist(), dtype=complex)
                 a = F.c_rows(r["sig"])[0]
                 # phases up to |2 pi df t| ~ 1e3 rad are reduced by libm on both sides: allow 1e-9 relative to the amplitude
-                if not F.close(a, m, max(F.maxabs([a]), 1e-300), rel=1e-8):
-                    d = "shape" if a.shape != m.shape else f"max|diff|={np.max(np.abs(a - m)):.3e}"
+                amp = math.sqrt(10.0 ** (case["p"] / 10.0 - 3.0))
+                if not F.close(a, m, amp, rel=1e-8):
+                    d = "shape" if a.shape != m.shape else f"max|diff|={F._maxdiff(a, m):.3e}"
                     out.append(f"laser: field differs from the model on the recorded draws ({d})")
         else:
             out.append("laser: time-out")
@@ -601,11 +605,11 @@ def compare(case, res, reqs, replies):
             k = 0
             if case["lw"] is not None and k < len(res["spied"]):
                 s = res["spied"][k]; k += 1
-                if s["loc"] != 0.0 or abs(s["scale"] - s_ph) > 1e-12 * max(s_ph, 1e-300) or s["size"] != case["n"]:
+                if s["loc"] != 0.0 or not (abs(s["scale"] - s_ph) <= 1e-12 * abs(s_ph)) or s["size"] != case["n"]:
                     out.append(f"laser: phase-noise draw normal({s['loc']},{s['scale']},{s['size']}) but model sigma {s_ph}")
             if case["rin"] is not None and k < len(res["spied"]):
                 s = res["spied"][k]; k += 1
-                if s["loc"] != 0.0 or abs(s["scale"] - s_rin) > 1e-12 * max(s_rin, 1e-300) or s["size"] != case["n"]:
+                if s["loc"] != 0.0 or not (abs(s["scale"] - s_rin) <= 1e-12 * abs(s_rin)) or s["size"] != case["n"]:
                     out.append(f"laser: RIN draw normal({s['loc']},{s['scale']},{s['size']}) but model sigma {s_rin}")
         return out
     if case["kind"] == "mzm_bw_hist":
@@ -631,7 +635,7 @@ def compare(case, res, reqs, replies):
         isig = F.c_rows(r["sig"])
         inoise = None if r["noise"] is None else F.c_rows(r["noise"])
         fl = case["field"]
-        scale = max(F.maxabs(F.c_rows(fl["sig"]), None if fl["noise"] is None else F.c_rows(fl["noise"])), 1e-300)
+        scale = F.scales(F.c_rows(fl["sig"]), None if fl["noise"] is None else F.c_rows(fl["noise"]))
         return out + F.diff_fields("mzm_bw", isig, inoise, [np.array(a, dtype=complex) for a in m_rows],
                                    None if m_noise is None else [np.array(a, dtype=complex) for a in m_noise], scale)
     for i, (call, rep) in enumerate(zip(case["calls"], replies)):
@@ -695,8 +699,8 @@ def _oracle_mzm(case, i, call, r, in_rows):
                 continue
             ref = rows_in[k] * h
             if not F.close(rows_out[k], ref, sc):
-                v.append((f"C06:mzm-transfer:{part}", f"{part} row {k} differs from in*sqrt(loss)(cos th + j 10^(-ER/20) sin th): max|diff| {np.max(np.abs(rows_out[k] - ref)):.3e} ({tag})"))
-            if np.any(np.abs(rows_out[k]) ** 2 > loss * np.abs(rows_in[k]) ** 2 * (1 + 1e-9) + 1e-300):
+                v.append((f"C06:mzm-transfer:{part}", f"{part} row {k} differs from in*sqrt(loss)(cos th + j 10^(-ER/20) sin th): max|diff| {F._maxdiff(rows_out[k], ref):.3e} ({tag})"))
+            if not np.all(np.abs(rows_out[k]) ** 2 <= loss * np.abs(rows_in[k]) ** 2 * (1 + 1e-9) + 1e-300):
                 v.append((f"C06:mzm-passive:{part}", f"{part} row {k}: |out|^2 exceeds loss*|in|^2 ({tag})"))
     return v
 
@@ -726,16 +730,22 @@ def _oracle_pm(case, i, call, r, in_rows):
     rot = np.exp(1j * math.pi * u / call["Vpi"])
     out_sig = F.c_rows(r["sig"])
     out_noise = None if r["noise"] is None else F.c_rows(r["noise"])
-    sc = max(F.maxabs(sig_in, noise_in), 1e-300)
+    ssc, nsc = F.scales(sig_in, noise_in)
+    zeros = [np.zeros(n, dtype=complex) for _ in range(npol)]
+    nin = zeros if noise_in is None else noise_in          # an absent noise part == zero noise
+    nout = zeros if out_noise is None else out_noise
     for k in range(npol):
-        tot_in = sig_in[k] + (noise_in[k] if noise_in is not None else 0)
-        tot_out = out_sig[k] + (out_noise[k] if out_noise is not None else 0)
-        if not F.close(np.abs(tot_out) ** 2, np.abs(tot_in) ** 2, sc * sc):
-            v.append(("C06:pm-power", f"row {k}: |signal+noise|^2 changed by PM (max diff {np.max(np.abs(np.abs(tot_out) ** 2 - np.abs(tot_in) ** 2)):.3e}, noise {case['field']['noise_kind']})"))
-        if not F.close(tot_out, tot_in * rot, sc):
-            v.append(("C06:pm-phase", f"row {k}: total field is not in*exp(j pi u/Vpi) (max diff {np.max(np.abs(tot_out - tot_in * rot)):.3e})"))
-        if not F.close(out_sig[k], sig_in[k] * rot, sc):
+        tot_in = sig_in[k] + nin[k]
+        tot_out = out_sig[k] + nout[k]
+        tsc = max(F.maxabs([tot_in]), 1e-300)
+        if not F.close(np.abs(tot_out) ** 2, np.abs(tot_in) ** 2, tsc * tsc):
+            v.append(("C06:pm-power", f"row {k}: |signal+noise|^2 changed by PM (max diff {F._maxdiff(np.abs(tot_out) ** 2, np.abs(tot_in) ** 2):.3e}, noise {case['field']['noise_kind']})"))
+        if not F.close(tot_out, tot_in * rot, tsc):
+            v.append(("C06:pm-phase", f"row {k}: total field is not in*exp(j pi u/Vpi) (max diff {F._maxdiff(tot_out, tot_in * rot):.3e})"))
+        if not F.close(out_sig[k], sig_in[k] * rot, ssc):
             v.append(("C06:pm-phase-signal", f"row {k}: signal part is not in*exp(j pi u/Vpi)"))
+        if not F.close(nout[k], nin[k] * rot, nsc):
+            v.append(("C06:pm-phase-noise", f"row {k}: noise part is not in.noise*exp(j pi u/Vpi) (max diff {F._maxdiff(nout[k], nin[k] * rot):.3e}, noise scale {nsc:.3g})"))
     return v
 
 
@@ -770,18 +780,20 @@ def _oracle_laser(case, res):
         return v
     if case["rin"] is None:
         pw = sum(np.abs(e) ** 2 for e in rows)
-        if n and np.max(np.abs(pw - P)) > 1e-12 * P:
-            v.append(("C06:laser-power", f"|E|^2 deviates from P={P:.6g} by {np.max(np.abs(pw - P)):.3e} without RIN"))
+        if n and not np.all(np.abs(pw - P) <= 1e-12 * P):
+            v.append(("C06:laser-power", f"|E|^2 deviates from P={P:.6g} by {F._maxdiff(pw, np.full(n, P)):.3e} without RIN"))
         # spectral peak at df (oracle-only clause)
         narrow = case["lw"] is None or case["lw"] * n / fs <= 0.01
         if n >= 16 and narrow:
             spec = sum(np.abs(np.fft.fft(e)) ** 2 for e in rows)
+            if not np.all(np.isfinite(spec)):
+                return v + [("C06:laser-peak", "the spectrum of the returned samples is not finite")]
             f = np.fft.fftfreq(n, d=1 / fs)
             kpk = int(np.argmax(spec))
             df = case["df"] or 0.0
             dist = abs(f[kpk] - df)
             dist = min(dist, abs(dist - fs))          # +-fs/2 are the same bin
-            if dist > fs / n * (1 + 1e-9):
+            if not (dist <= fs / n * (1 + 1e-9)):
                 v.append(("C06:laser-peak", f"spectral peak at {f[kpk]:.6g} Hz, df={df:.6g} Hz, bin {fs / n:.6g} Hz"))
     return v
 
@@ -809,7 +821,7 @@ def _oracle_mzm_bw(case, res):
     if r["status"] != "ok" or bp.get("status") != "ok":
         v.append(("C06:mzm-bw-accept", f"MZM(x, BW) failed ({str(r)[:100]}) although BPF(MZM(x), BW) works"))
         return v
-    sc = max(F.maxabs(F.c_rows(r0["sig"]), None if r0["noise"] is None else F.c_rows(r0["noise"])), 1e-300)
+    sc = F.scales(F.c_rows(r0["sig"]), None if r0["noise"] is None else F.c_rows(r0["noise"]))
     d = F.diff_fields("MZM(x,u,BW) vs BPF(MZM(x,u),BW)", F.c_rows(r["sig"]), None if r["noise"] is None else F.c_rows(r["noise"]),
                       F.c_rows(bp["sig"]), None if bp["noise"] is None else F.c_rows(bp["noise"]), sc)
     if d:
@@ -831,10 +843,13 @@ def oracle(case, res):
     v = []
     if res.get("status") != "ok":
         return [("C06:harness", f"could not build the inputs: {res.get('detail')}")] if case["kind"] != "laser" else []
+    for path, part, row, idx in F.nonfinite_outputs({k: res[k] for k in ("results", "steps", "unfiltered", "bpf") if k in res})[:3]:
+        # every generated input is finite and inside the statement's ranges: the documented formulas give finite outputs
+        v.append(("C06:non-finite", f"{path}: {part} row {row} sample {idx} is NaN/inf although all inputs are finite"))
     if case["kind"] == "laser":
-        return _oracle_laser(case, res)
+        return v + _oracle_laser(case, res)
     if case["kind"] == "mzm_bw":
-        return _oracle_mzm_bw(case, res)
+        return v + _oracle_mzm_bw(case, res)
     if case["kind"] == "mzm_bw_hist":
         for st in res.get("steps", []):
             tag = f"call {st['i']} of the history {[a * b for a, b in case['seq']]} (fs={st.get('fs', 0):.4g}, BW={case['BW']:.4g}): "
@@ -855,12 +870,15 @@ def oracle(case, res):
     allok = all(r["status"] == "ok" for r in rs)
     if case["kind"] == "mzm_per" and allok:
         a, b = rs
-        for part in ("sig", "noise"):
-            if a[part] is None:
+        fsc = F.scales(F.c_rows(case["field"]["sig"]), None if case["field"]["noise"] is None else F.c_rows(case["field"]["noise"]))
+        for part, sc in (("sig", fsc[0] ** 2), ("noise", fsc[1] ** 2)):
+            if a[part] is None and b[part] is None:
+                continue
+            if a[part] is None or b[part] is None:
+                v.append(("C06:mzm-periodic", f"{part} present for one drive and absent for the drive shifted by 2*Vpi"))
                 continue
             pa = [np.abs(x) ** 2 for x in F.c_rows(a[part])]
             pb = [np.abs(x) ** 2 for x in F.c_rows(b[part])]
-            sc = max(F.maxabs(F.c_rows(case["field"]["sig"]), None if case["field"]["noise"] is None else F.c_rows(case["field"]["noise"])), 1e-300) ** 2
             if not all(F.close(x, y, sc) for x, y in zip(pa, pb)):
                 v.append(("C06:mzm-periodic", f"output power of {part} changes when the drive is shifted by 2*Vpi={2 * case['calls'][0]['Vpi']}"))
     if case["kind"] == "mzm_er" and allok:
@@ -869,8 +887,10 @@ def oracle(case, res):
         pon = np.abs(F.c_rows(rs[0]["sig"])[sel]) ** 2
         poff = np.abs(F.c_rows(rs[1]["sig"])[sel]) ** 2
         want = 10.0 ** (call["er"] / 10.0)
-        if np.any(poff <= 0) or np.max(np.abs(pon / poff - want)) > 1e-9 * want:
-            v.append(("C06:mzm-er", f"on/off power ratio {float((pon / np.where(poff > 0, poff, np.nan))[0]):.9g}, required 10^(ER/10)={want:.9g}"))
+        with np.errstate(all="ignore"):
+            ratio = pon / poff
+        if not (np.all(poff > 0) and np.all(np.abs(ratio - want) <= 1e-9 * want)):
+            v.append(("C06:mzm-er", f"on/off power ratio {float(ratio[0]):.9g}, required 10^(ER/10)={want:.9g}"))
     if case["kind"] in ("mzm_forms", "pm_forms"):
         oks = [(c, r) for c, r in zip(case["calls"], rs) if r["status"] == "ok"]
         if len(oks) != len(rs):
@@ -882,7 +902,7 @@ def oracle(case, res):
                 break
     if case["kind"] == "pm_add" and allok:
         z, w = rs[1], rs[2]
-        sc = max(F.maxabs(F.c_rows(case["field"]["sig"]), None if case["field"]["noise"] is None else F.c_rows(case["field"]["noise"])), 1e-300)
+        sc = F.scales(F.c_rows(case["field"]["sig"]), None if case["field"]["noise"] is None else F.c_rows(case["field"]["noise"]))
         d = F.diff_fields("PM(PM(x,a),b) vs PM(x,a+b)", F.c_rows(z["sig"]), None if z["noise"] is None else F.c_rows(z["noise"]),
                           F.c_rows(w["sig"]), None if w["noise"] is None else F.c_rows(w["noise"]), sc)
         if d:
@@ -898,6 +918,8 @@ def features(case, res):
     else:
         fl = case["field"]
         f += [f"npol={fl['npol']}", "noise=" + fl["noise_kind"], "dtype=" + fl["dtype"], f"N={fl['n']}"]
+        if fl.get("dark") is not None:
+            f.append("dark-pol" + ("+noise" if fl["noise"] is not None else ""))
         if case["kind"] == "mzm_bw":
             f.append("BW:" + ("filtered" if res.get("params") else "filter-not-reached"))
         if case["kind"] == "mzm_bw_hist":
